@@ -6,7 +6,20 @@ import (
 
 // operand pairs whose sum / difference / product lands next to a multiple of n before reduction
 func (m *M) scalarPair() (string, string, *big.Int, *big.Int) {
-	switch m.rng.Intn(12) {
+	switch m.rng.Intn(14) {
+	case 12, 13: // the STORED limbs differ by a STRUCTURED xor pattern: equal / related limb differences, some limbs untouched
+		for try := 0; try < 8; try++ {
+			wa := new(big.Int).Mod(new(big.Int).Mul(m.randBig(bigN), bigR), bigN)
+			if m.rng.Intn(4) == 0 {
+				wa = new(big.Int).Mod(m.nearMontConst(bigN), bigN)
+			}
+			wb := new(big.Int).Xor(wa, m.limbStruct())
+			if wb.Cmp(bigN) < 0 {
+				return "mont_limbs_xor_structured", "", mulmod(wa, rInvN, bigN), mulmod(wb, rInvN, bigN)
+			}
+		}
+		a := m.randBig(bigN)
+		return "random", "random", a, m.randBig(bigN)
 	case 10, 11: // the STORED (Montgomery) limbs of the two values differ in one bit, or in one limb only
 		wa := new(big.Int).Mod(new(big.Int).Mul(m.randBig(bigN), bigR), bigN)
 		if m.rng.Intn(2) == 0 {
